@@ -143,7 +143,9 @@ pub fn c11(ctx: &mut Ctx) {
     let menu = tile_menu();
     assert_eq!(menu.len() as u64, KINDS);
     let nseq = seq_count(KINDS, depth);
-    ctx.run_space("tile-sequences-x-tails", nseq * TAILS, |idx, l| {
+    super::bytes::placement_bound(ctx);
+    ctx.run_space("tile-sequences-x-tails", nseq * TAILS * crate::engine::place::RESIDUES, |idx, l| {
+        let (idx, residue) = crate::engine::place::split(idx, true);
         let seq = seq_decode(KINDS, idx / TAILS);
         let mut v = Vec::new();
         let mut last = None;
@@ -152,7 +154,7 @@ pub fn c11(ctx: &mut Ctx) {
             v.extend_from_slice(&menu[*k as usize]);
         }
         apply_tail(&mut v, last, idx % TAILS);
-        c11_case(&v, l);
+        c11_case(crate::engine::place::place(&mut v, residue), l);
     });
     // the giant tile: sequences of length <= 2 over the menu plus one 262144-byte unknown packet
     let nseq2 = seq_count(KINDS + 1, 2);
@@ -178,30 +180,21 @@ pub fn c11(ctx: &mut Ctx) {
             }
         }
         apply_tail(&mut v, last, idx % TAILS);
-        c11_case(&v, l);
+        let residue = l.residue();
+        c11_case(crate::engine::place::place(&mut v, residue), l);
     });
     // long chains: 7..130 mixed-size tiles x 12 tails (where a fixed-size cache or a capped up-front walk runs out)
     {
         let sp = super::bytes::long_chain_space();
-        let get = &sp.get;
         ctx.bound("long chains", "chains of {7,8,9,15..18,31..34,63,65,130,255,256,257,300,513,1025} well-formed tiles of mixed sizes (two size patterns) x 12 tail variants");
-        ctx.run_space(&sp.name, sp.len, |idx, l| {
-            let mut buf = Vec::with_capacity(2048);
-            get(idx, &mut buf);
-            c11_case(&buf, l);
-        });
+        sp.run(ctx, &sp.name, super::bytes::cross_limit(ctx), |s, l| c11_case(s, l));
     }
     // very long runs of one header-only packet (65 536, 65 537, 200 000 tiles: where a 16-bit tile counter wraps or a
     // per-tile recursion runs out of stack) and single-tile SDES giants
     {
         let sp = super::bytes::giants_runs_space();
-        let get = &sp.get;
         ctx.bound("giant runs", "runs of 65536 / 65537 / 200000 header-only packets of each of 10 packet types; 6 SDES packets with one chunk of more than 65535 bytes of items");
-        ctx.run_space(&sp.name, sp.len, |idx, l| {
-            let mut buf = Vec::new();
-            get(idx, &mut buf);
-            c11_case(&buf, l);
-        });
+        sp.run(ctx, &sp.name, 0, |s, l| c11_case(s, l));
     }
     // iterator call histories: every sequence of next / nth / take-count calls up to a depth, then collect / count /
     // last, on the compound of every tile sequence of length 1..=3, against what plain next() calls give (which the
@@ -217,12 +210,14 @@ pub fn c11(ctx: &mut Ctx) {
                 v.extend_from_slice(&menu[*k as usize]);
             }
             l.evals += 1;
-            l.sample(|| format!("iterator histories on {}", hex_short(&v)));
-            let show = || hex_short(&v);
+            let residue = l.residue();
+            let v = crate::engine::place::place(&mut v, residue);
+            l.sample(|| format!("iterator histories on {}", hex_short(v)));
+            let show = || hex_short(v);
             let r = guard::catch(|| -> Result<(), String> {
-                let c = Compound::parse(&v).map_err(|e| format!("{:?}", e))?;
+                let c = Compound::parse(v).map_err(|e| format!("{:?}", e))?;
                 let reference = super::common::iterator_reference(c, seq.len() + 3);
-                super::common::iterator_histories(l, "Compound", &|| Compound::parse(&v).expect("parsed a moment ago"), &reference, hd, &show);
+                super::common::iterator_histories(l, "Compound", &|| Compound::parse(v).expect("parsed a moment ago"), &reference, hd, &show);
                 Ok(())
             });
             match r {
@@ -277,7 +272,7 @@ pub fn c11(ctx: &mut Ctx) {
         let total = r.len();
         ctx.run_space(&format!("all-strings-of-length-{}", n), total, |idx, l| {
             let c = r.coords(idx);
-            let v: Vec<u8> = (0..n)
+            let mut v: Vec<u8> = (0..n)
                 .map(|i| {
                     let x = c[i] as usize;
                     if i >= 12 {
@@ -297,7 +292,8 @@ pub fn c11(ctx: &mut Ctx) {
                     }
                 })
                 .collect();
-            c11_case(&v, l);
+            let residue = l.residue();
+            c11_case(crate::engine::place::place(&mut v, residue), l);
         });
     }
     ctx.require_hit("accepted: 1 tile");
